@@ -12,3 +12,5 @@ pub assume_specification<T, F: FnOnce() -> Option<T>> [Option::<T>::or_else] (o:
     ensures o.is_some() ==> r == o,
             o.is_none() ==> f.ensures((), r),
 ;
+pub assume_specification<T> [Option::<T>::replace] (o: &mut Option<T>, v: T) -> (r: Option<T>)
+    ensures r == *old(o), *final(o) == Some(v);
